@@ -35,6 +35,7 @@
 //!   generate   gen_graph(rng) (DESIGN.md Appendix B), gen_costs(rng,m,family), gen_world(rng,family),
 //!              gen_frontier(rng,&mut World), gen_heuristic(rng,&mut World,dir,target,kind),
 //!              true_dist(&World,dir,target), reachable(&World,dir,start), gen_query(rng,&World), boundary_cases() (C01/C05 families),
+//!              ksp_cases(), gen_ksp_world(rng), run_yens_watchdog(..), term_s_ksp(..), term_const(..) (Yen's, chain clause only),
 //!              absorption_cases() (2^60 absorption + long-haul/zero-length mutual edges), reopen_cases(),
 //!              add_reopen_gadget(rng,&mut World,&Query), reopened_and_target_popped_first(&World,&Query) (histogram statistic only)
 use crate::*;
@@ -400,6 +401,30 @@ pub fn run_query_watchdog(w: &World, q: &Query, ms: u64) -> Outcome {
     }
 }
 
+/// Yen's k-shortest paths (SearchAlgorithm::Yens { k, underlying, similarity: None, termination: None }) from vertex
+/// `s` to vertex `t`, forward, in a helper thread: panic -> status "Panic", no answer within `ms` -> status "Hang"
+/// (known finding K_yens_k_ge_2 of C12/C13: a one-edge route panics, a two-edge route never returns).  Used by C01 to
+/// judge the chain clause of every route that IS returned.
+pub fn run_yens_watchdog(w: &World, k: usize, under: &Alg, s: usize, t: usize, ms: u64) -> Outcome {
+    let (tx, rx) = std::sync::mpsc::channel();
+    let (w2, u2) = (w.clone(), *under);
+    std::thread::spawn(move || {
+        let o = match catch(move || {
+            let si = build_instance(&w2);
+            let alg = SearchAlgorithm::Yens { k, underlying: Box::new(search_algorithm(&u2)), similarity: None, termination: None };
+            outcome_of(alg.run_vertex_oriented(VertexId(s), Some(VertexId(t)), &json!({}), &Direction::Forward, &si))
+        }) {
+            Ok(o) => o,
+            Err(_) => Outcome::status_only("Panic"),
+        };
+        let _ = tx.send(o);
+    });
+    match rx.recv_timeout(std::time::Duration::from_millis(ms)) {
+        Ok(o) => o,
+        Err(_) => Outcome::status_only("Hang"),
+    }
+}
+
 // ------------------------------------------------------------------------------------------ print
 
 pub fn show_triples(t: &[Branch]) -> String {
@@ -565,6 +590,15 @@ pub fn term_m(id: usize, w: &World, q: &Query, k: NumKind, detail: u8) -> String
 /// (same text as the I line) when they accept and REJECT(...) otherwise
 pub fn term_s(id: usize, w: &World, q: &Query, o: &Outcome, k: NumKind, detail: u8) -> String {
     format!("SR.line_S {} {}%Z {} {} {} {}", k.inst(), id, coq_world(w, k), coq_query(q, k), coq_outcome(o, k), detail)
+}
+
+/// checker line for a k-shortest-paths outcome: chain clause for every route, tree clause for every tree (SR.line_S_ksp)
+pub fn term_s_ksp(id: usize, w: &World, s: usize, t: usize, o: &Outcome, k: NumKind, detail: u8) -> String {
+    format!("SR.line_S_ksp {} {}%Z {} {} {} {} {}", k.inst(), id, coq_world(w, k), s, t, coq_outcome(o, k), detail)
+}
+/// a constant line (tag, id, payload) for cases that have no model / nothing to judge
+pub fn term_const(tag: &str, id: usize, payload: &str) -> String {
+    format!("Show.line {} {}%Z {}", coq_string(tag), id, coq_string(payload))
 }
 
 // ------------------------------------------------------------------------------------------- json
@@ -1170,6 +1204,97 @@ pub fn add_reopen_gadget(rng: &mut Rng, w: &mut World, q: &Query) -> bool {
     // f(X) = 1 + wf*h[X] must exceed f(C) = 9 so that R and C are expanded before X
     w.h[x] = (10.0 * scale / wf).ceil() + rng.below(4) as f64;
     true
+}
+
+/// deterministic Yen's families for C01 (name, world, k, underlying, source, target): shortest paths of >= 3 edges with
+/// detours of 1, 2 and 3 edges, one-way chain / dead-end spur vertices (the whole query fails: nopath), a ladder
+pub fn ksp_cases() -> Vec<(String, World, usize, Alg, usize, usize)> {
+    let mut out = vec![];
+    let mk = |n: usize, es: &[(usize, usize, f64)]| World::new(n, es.iter().map(|e| (e.0, e.1)).collect(), es.iter().map(|e| e.2).collect());
+    // 0 -e0-> 1 -e1-> 2 -e2-> 3, detour 0->4->2, detour 2->5->3; vertex 1 is a one-way chain vertex (seeded C01-10)
+    let chain = [(0, 1, 1.0), (1, 2, 1.0), (2, 3, 1.0), (0, 4, 2.0), (4, 2, 2.0), (2, 5, 2.0), (5, 3, 2.0)];
+    let mut control = chain.to_vec();
+    control.push((1, 5, 2.0));
+    let mut dead_end = chain.to_vec();
+    dead_end.push((1, 6, 1.0)); // the only other exit of vertex 1 is a dead end
+    dead_end.push((6, 7, 1.0));
+    let one = [(0, 1, 1.0), (1, 2, 1.0), (2, 3, 1.0), (1, 3, 5.0)];
+    // detour of two edges 1->4->3 (seeded C01-12) and of three edges 1->4->5->3
+    let two = [(0, 1, 1.0), (1, 2, 1.0), (2, 3, 1.0), (1, 4, 2.0), (4, 3, 2.0)];
+    let three = [(0, 1, 1.0), (1, 2, 1.0), (2, 3, 1.0), (1, 4, 2.0), (4, 5, 2.0), (5, 3, 2.0)];
+    // four-edge shortest path with two-edge detours around every inner vertex
+    let long = [(0, 1, 1.0), (1, 2, 1.0), (2, 3, 1.0), (3, 4, 1.0), (0, 5, 1.5), (5, 2, 1.5), (1, 6, 1.75), (6, 3, 1.75), (2, 7, 2.25), (7, 4, 2.25)];
+    // ladder: two rails 0-1-2-3 / 4-5-6-7 with rungs both ways, target 3
+    let ladder = [(0, 1, 1.0), (1, 2, 1.0), (2, 3, 1.0), (4, 5, 1.25), (5, 6, 1.25), (6, 7, 1.25), (0, 4, 0.5), (1, 5, 0.5), (2, 6, 0.5), (5, 1, 0.75), (6, 2, 0.75), (7, 3, 0.75)];
+    for under in [Alg::Dijkstra, Alg::AStar(None)] {
+        for k in [2usize, 3, 4] {
+            out.push(("ksp_chain_spur_without_detour".into(), mk(6, &chain), k, under, 0, 3));
+            out.push(("ksp_chain_control".into(), mk(6, &control), k, under, 0, 3));
+            out.push(("ksp_spur_into_dead_end".into(), mk(8, &dead_end), k, under, 0, 3));
+            if k == 2 {
+                // with k >= 3 the accepted two-edge route [e0,e3] makes the spur range empty: the loop never ends (K_yens_k_ge_2)
+                out.push(("ksp_detour_one_edge".into(), mk(4, &one), k, under, 0, 3));
+            }
+            out.push(("ksp_detour_two_edges".into(), mk(5, &two), k, under, 0, 3));
+            out.push(("ksp_detour_three_edges".into(), mk(6, &three), k, under, 0, 3));
+            out.push(("ksp_four_edge_path".into(), mk(8, &long), k, under, 0, 4));
+            out.push(("ksp_ladder".into(), mk(8, &ladder), k, under, 0, 3));
+        }
+    }
+    out
+}
+
+/// random network for Yen's: a chain 0..len (len 3..6 edges, cheap) from source 0 to target len, detours of 1..3 edges
+/// between chain vertices (so that spur paths of >= 2 edges exist), dead-end branches, some chain vertices left without a
+/// detour (one-way chain: the whole query fails with nopath).  Returns (world, source, target).
+pub fn gen_ksp_world(rng: &mut Rng) -> (World, usize, usize) {
+    let len = rng.range(3, 6) as usize;
+    let mut n = len + 1;
+    let mut es: Vec<(usize, usize)> = vec![];
+    let mut cs: Vec<f64> = vec![];
+    let cost = |rng: &mut Rng, lo: i64, hi: i64| rng.range(lo * 64, hi * 64) as f64 / 64.0;
+    for i in 0..len {
+        es.push((i, i + 1));
+        cs.push(cost(rng, 1, 2));
+    }
+    // most inner chain vertices get their own detour (otherwise the spur search from them fails and with it the query),
+    // plus a few detours anywhere
+    let mut starts: Vec<usize> = (1..len).filter(|_| rng.chance(5, 6)).collect();
+    for _ in 0..rng.range(0, 3) {
+        starts.push(rng.below(len as u64) as usize);
+    }
+    for i in starts {
+        let j = rng.range(i as i64 + 1, len as i64) as usize;
+        let m = rng.range(1, 3) as usize;
+        if i + m + (len - j) < 3 {
+            continue;
+        }
+        let mut prev = i;
+        for step in 0..m {
+            let next = if step + 1 == m { j } else { n += 1; n - 1 };
+            es.push((prev, next));
+            cs.push(cost(rng, 2, 6));
+            prev = next;
+        }
+    }
+    for _ in 0..rng.below(3) {
+        let i = rng.below(n as u64) as usize;
+        n += 1;
+        es.push((i, n - 1));
+        cs.push(cost(rng, 1, 3));
+    }
+    if rng.chance(1, 3) {
+        // a back edge: cycles through the chain
+        let i = rng.range(1, len as i64) as usize;
+        es.push((i, rng.below(i as u64) as usize));
+        cs.push(cost(rng, 1, 3));
+    }
+    // shuffle edge ids so that adjacency order is not the construction order
+    let mut idx: Vec<usize> = (0..es.len()).collect();
+    rng.shuffle(&mut idx);
+    let es2: Vec<(usize, usize)> = idx.iter().map(|i| es[*i]).collect();
+    let cs2: Vec<f64> = idx.iter().map(|i| cs[*i]).collect();
+    (World::new(n, es2, cs2), 0, len)
 }
 
 fn term_fires(t: &Term, size: usize, iters: u64) -> bool {
